@@ -103,12 +103,23 @@ def run(ctx):
             if first is None or len(ln) < len(first[0]):
                 first = (d[:120], mi[:300], m[:300])
     ctx.oblige("correspondence c14: every key / value / table / array-of-tables span of the model's span-recording parser = the implementation's", ndis == 0, f"{ndis} disagreements; shortest: {first}")
+    # ---- Spanned<T> targets through serde: Model/DeSpanned.lean = the three routes (stream c14s), plus direct oracles
+    extra_props(ctx, ["C14Spanned"])
+    from props import c14sp
+    sstats, sdis, sbroken = c14sp.run_spanned(ctx, tvh)
+    for name, fails in sbroken.items():
+        for l, dd in fails[:5]:
+            what = {"transparent": "wrapping the target type in Spanned changes whether decoding succeeds, where the error is located, or the value",
+                    "ranges": "a range delivered through Spanned is not the span of a key / value of the document",
+                    "no-source": "a range is delivered although the document was made editable (spans must disappear, not go stale)",
+                    "same-routes": "toml and toml_edit routes differ"}.get(name, name)
+            ctx.violation(f"Spanned target, {what}: {dd[:300]}", {"mode": "c14s", "case": l, "impl": dd[:2000], "witness": l})
     if ctx.broken and not ctx.violations:
         for n, d in ctx.broken:
             ctx.violation(f"obligation no longer checks: {n}", {"unchecked": n, "detail": d[:1500], "searched": f"{len(docs)} documents"}, concrete=False)
     ctx.cov.update({
-        "evaluations": len(docs), "distinct_nontrivial": len(nontriv),
-        "rule": "generated valid documents (multi-byte characters in keys, strings and comments, BOM, CRLF, comments and whitespace around every token, nested containers, dotted keys, header / array-of-tables layouts) + toml-test valid files + hand-written multi-byte layouts; oracles on the implementation: bounds, character boundaries, child inside parent, slice re-parses to the same key / value, Spanned<T> route equal value and equal spans (a recursive Spanned tree), the four key kinds Newtype(String) / Spanned<Newtype(String)> / Newtype(Spanned<String>) / Spanned<String> agree on success, keys and ranges, no span after into_mut. non-trivial = document contains a non-ASCII byte",
+        "evaluations": len(docs) + sstats.get("cases", 0), "spanned_targets": sstats, "distinct_nontrivial": len(nontriv),
+        "rule": "generated valid documents (multi-byte characters in keys, strings and comments, BOM, CRLF, comments and whitespace around every token, nested containers, dotted keys, header / array-of-tables layouts) + toml-test valid files + hand-written multi-byte layouts; oracles on the implementation: bounds, character boundaries, child inside parent, slice re-parses to the same key / value, Spanned<T> route equal value and equal spans (a recursive Spanned tree), the four key kinds Newtype(String) / Spanned<Newtype(String)> / Newtype(Spanned<String>) / Spanned<String> agree on success, keys and ranges; Spanned<T> targets (c14s): well-typed (type, document) pairs of the C13 grammar with Spanned wrappers at random positions (values, map keys, struct fields, enum payloads, elements) on three routes against Model/DeSpanned.lean and against the unwrapped type; no span after into_mut. non-trivial = document contains a non-ASCII byte",
         "samples": [docs[0].decode()[:150], docs[-1].decode()[:150]], "spans_checked": nspans,
         "traces_validated_against_impl": len(docs), "disagreements": ndis,
     })
